@@ -12,7 +12,7 @@ import (
 func TestMain(m *testing.M) {
 	kit.Main(m, "C15", "exploration",
 		"cache.New through its public builder with an injected Clock. (1) EXHAUSTIVE: every sequence up to length L (quick 5, thorough 6 and 7 for capacities 1-2; asynchronous mode 4 / 5) over {Set k (fresh value), Get k, Delete k} x 3 keys, clock advance (0.6 x expiry), Close, for all four policies x capacities 1..3 x expiry on/off; "+
-			"(2) rapid: long sequences (up to 300 / 2000 operations, key universe = capacity + 3, incl. GetOrPanic) over capacities 1..6, 99, 100, 101, 199, 200, all policies, with/without expiry, synchronous and asynchronous eviction; (3) thorough: the same property under go test -fuzz via rapid.MakeFuzz. "+
+			"(2) rapid: long sequences (up to 300 / 2000 operations, key universe = capacity + 3, incl. GetOrPanic) over capacities 1..6, 99, 100, 101, 199, 200, all policies, with/without expiry, synchronous and asynchronous eviction; (2b) runs of 8-20 x capacity operations at capacities 100 / 101 / 128 so that the frequency-sketch policies complete several sample periods; (3) thorough: the same property under go test -fuzz via rapid.MakeFuzz. "+
 			"Oracle: a reference model that owns presence through the callbacks (present = set - deleted - notified): Len = |present| <= capacity after every operation; Get hits with the last value iff present; a miss of a present key is legal only by expiry and must be notified in that call; "+
 			"no callback for an absent key, no second callback for one residence, callback value = value held; Close notifies every remaining entry exactly once and the cache is inert afterwards; LRU victim = least recently used (exact), LFU victim has minimal use count (ties free), "+
 			"SLRU victims consistent with a segmented LRU for some protected size 0..capacity; every operation under a 20 s deadlock watchdog, any panic is a violation. "+
@@ -179,6 +179,41 @@ func prop(maxOps int) func(t *rapid.T) {
 			fail(t, cfg, ops, at, viol)
 		}
 	}
+}
+
+// TestSamplePeriods: runs long enough for the frequency-sketch policies to complete several
+// sample periods (TinyLFU resets its doorkeeper and halves its counters every 8 x capacity
+// recorded accesses, and only at capacity >= 100), with the same model as everywhere else.
+func TestSamplePeriods(t *testing.T) {
+	kit.Check(t, 60, 3000, func(t *rapid.T) {
+		cfg := config{
+			policy:   rapid.SampledFrom([]string{"tinylfu", "tinylfu", "slru", "lfu", "lru"}).Draw(t, "policy"),
+			capacity: rapid.SampledFrom([]int{100, 101, 128}).Draw(t, "capacity"),
+			sync:     true,
+		}
+		n := rapid.IntRange(8*cfg.capacity, 20*cfg.capacity).Draw(t, "n")
+		keys := cfg.capacity + rapid.SampledFrom([]int{-20, 3, 40}).Draw(t, "keySpace")
+		ops := make([]op, 0, n)
+		for i := 0; i < n; i++ {
+			k := rapid.IntRange(0, keys-1).Draw(t, "key")
+			switch c := rapid.IntRange(0, 9).Draw(t, "kind"); {
+			case c < 4:
+				ops = append(ops, op{kind: opSet, key: k, val: 1000 + i})
+			case c < 9:
+				ops = append(ops, op{kind: opGet, key: k})
+			default:
+				ops = append(ops, op{kind: opDelete, key: k})
+			}
+		}
+		viol, ev, ex, at := run(cfg, ops)
+		kit.Rec.Case(fmt.Sprintf("periods|%s|%d|%d|%d", cfg.String(), n, keys, ev), ev > 0, func() any {
+			return map[string]any{"config": cfg.String(), "operations": len(ops), "key_space": keys, "evictions": ev, "expiries": ex, "sample_periods_completed": n / (8 * cfg.capacity)}
+		})
+		kit.Rec.Label("sample-periods:" + cfg.policy)
+		if viol != "" {
+			fail(t, cfg, ops, at, viol)
+		}
+	})
 }
 
 func TestRandomLong(t *testing.T) {
